@@ -189,6 +189,12 @@ def check(case):
                                 break
                         except Exception:  # noqa: BLE001
                             pass
+            if not kind.startswith(("trig-of", "non-strict", "definition-folded")):
+                try:
+                    if ref.trig_inside_relational(["d" + k + "_dt" for k in bad]):
+                        kind = "periodic-inequality-solved-for-one-period:" + kind
+                except Exception:  # noqa: BLE001
+                    pass
             n0 = sorted(bad)[0]
             add(f"C01:rhs-mismatch:{kind}", f"rhs value of d{n0}_dt differs from the reference meaning of `{ref.assigns['d' + n0 + '_dt'].expr_text[:80]}`", inp,
                 {k: want[k] for k in bad}, bad, f"generated line(s): {gen_lines(code, ['d' + k + '_dt' for k in bad])}", base="C01:rhs-mismatch")
